@@ -16,6 +16,7 @@ func init() {
 			"D2 GetValueAtQuantile (both variants) and the batch form: q in {NaN,<0,>1} and the empty sketch return a non-nil error with no write; q in [0,1] on a non-empty sketch returns nil. "+
 			"D3 MergeWith (both variants): unequal mappings → non-nil error before any write. Reweight (sketch ×2, every Store implementation): factor ≤ 0 → error with no write, factor = 1 → nil with no write, and no error can be returned after the first write (callee tables are used as summaries). "+
 			"D4 constructors: accuracy ≤0 / ≥1 and gamma ≤1 return (nil, error); sketch constructors propagate; NewBin(count<0) and NewSummaryStatisticsFromData guards. "+
+			"SHARED (obligations of other properties that decide clauses this property states too, re-evaluated here under their home rule ids): C19-D2/D3 (Equals of the mappings: comma-ok same-type test and the symmetric tolerance decision table — refusing a merge of unequal mappings rests on it). "+
 			"NOT DECIDED: nothing about which float falls in which class (the classes are the code's own comparisons against MinIndexableValue/MaxIndexableValue); NaN weights/factors/constructor parameters are outside the contract and only recorded.",
 		"one obligation per (function, class-cell) of the decision tables plus one per wrapper path; a cell is non-trivial when at least one CFG path had to be evaluated for it; cells forced by an earlier guard (e.g. weight<0 for every value class) are counted as trivial duplicates",
 		true, runC13)
@@ -45,6 +46,8 @@ func runC13(c *Ctx) {
 	c13Merge(c, a)
 	c13Reweight(c, a)
 	c13Constructors(c, a)
+	// "merging sketches with different mappings is refused" rests on the mappings' Equals (type test + symmetric tolerance)
+	c.shared(func() { c19Equals(c, mappingInfos(c, "C13")) }, func(o *Obligation) bool { return true })
 }
 
 // D1: plain sketch AddWithCount decision table (validation part; routing is C01-D1).
